@@ -131,6 +131,8 @@ def gen_kwargs(opts):
         kw["types_style"] = {dt.StringSerializable: {dt.StringSerializable.TypeStyle.use_actual_type: False}}
     elif style == "no-literals":
         kw["types_style"] = {dt.StringLiteral: {dt.StringLiteral.TypeStyle.use_literals: False}}
+    elif style == "int-no-actual-type":
+        kw["types_style"] = {dt.IntString: {dt.StringSerializable.TypeStyle.use_actual_type: False}}
     elif style == "actual-type":
         kw["types_style"] = {dt.StringSerializable: {dt.StringSerializable.TypeStyle.use_actual_type: True}}
     return kw
